@@ -31,38 +31,38 @@ Inductive dir := SendRecv | RecvOnly | SendOnly | Inactive.
 Inductive mtype := Audio | Video | Text | App.
 Inductive proto := PUdp | PAvp | PSavp | PSavpf | POther (s : bytes).
 
-Definition s_sendrecv : bytes := Eval vm_compute in B"sendrecv".
-Definition s_recvonly : bytes := Eval vm_compute in B"recvonly".
-Definition s_sendonly : bytes := Eval vm_compute in B"sendonly".
-Definition s_inactive : bytes := Eval vm_compute in B"inactive".
-Definition s_eoc : bytes := Eval vm_compute in B"end-of-candidates".
-Definition s_icelite : bytes := Eval vm_compute in B"ice-lite".
-Definition s_audio : bytes := Eval vm_compute in B"audio".
-Definition s_video : bytes := Eval vm_compute in B"video".
-Definition s_text : bytes := Eval vm_compute in B"text".
-Definition s_application : bytes := Eval vm_compute in B"application".
-Definition s_udp : bytes := Eval vm_compute in B"udp".
-Definition s_avp : bytes := Eval vm_compute in B"RTP/AVP".
-Definition s_savp : bytes := Eval vm_compute in B"RTP/SAVP".
-Definition s_savpf : bytes := Eval vm_compute in B"RTP/SAVPF".
+Definition t_sendrecv : bytes := Eval vm_compute in B"sendrecv".
+Definition t_recvonly : bytes := Eval vm_compute in B"recvonly".
+Definition t_sendonly : bytes := Eval vm_compute in B"sendonly".
+Definition t_inactive : bytes := Eval vm_compute in B"inactive".
+Definition t_eoc : bytes := Eval vm_compute in B"end-of-candidates".
+Definition t_icelite : bytes := Eval vm_compute in B"ice-lite".
+Definition t_audio : bytes := Eval vm_compute in B"audio".
+Definition t_video : bytes := Eval vm_compute in B"video".
+Definition t_text : bytes := Eval vm_compute in B"text".
+Definition t_application : bytes := Eval vm_compute in B"application".
+Definition t_udp : bytes := Eval vm_compute in B"udp".
+Definition t_avp : bytes := Eval vm_compute in B"RTP/AVP".
+Definition t_savp : bytes := Eval vm_compute in B"RTP/SAVP".
+Definition t_savpf : bytes := Eval vm_compute in B"RTP/SAVPF".
 
 Definition dir_name (d : dir) : bytes :=
-  match d with SendRecv => s_sendrecv | RecvOnly => s_recvonly | SendOnly => s_sendonly | Inactive => s_inactive end.
+  match d with SendRecv => t_sendrecv | RecvOnly => t_recvonly | SendOnly => t_sendonly | Inactive => t_inactive end.
 Definition dir_of (s : bytes) : option dir :=
-  if bytes_eqb s s_sendrecv then Some SendRecv else if bytes_eqb s s_recvonly then Some RecvOnly
-  else if bytes_eqb s s_sendonly then Some SendOnly else if bytes_eqb s s_inactive then Some Inactive else None.
+  if bytes_eqb s t_sendrecv then Some SendRecv else if bytes_eqb s t_recvonly then Some RecvOnly
+  else if bytes_eqb s t_sendonly then Some SendOnly else if bytes_eqb s t_inactive then Some Inactive else None.
 
 Definition mtype_name (m : mtype) : bytes :=
-  match m with Audio => s_audio | Video => s_video | Text => s_text | App => s_application end.
+  match m with Audio => t_audio | Video => t_video | Text => t_text | App => t_application end.
 Definition mtype_of (s : bytes) : option mtype :=
-  if bytes_eqb s s_audio then Some Audio else if bytes_eqb s s_video then Some Video
-  else if bytes_eqb s s_text then Some Text else if bytes_eqb s s_application then Some App else None.
+  if bytes_eqb s t_audio then Some Audio else if bytes_eqb s t_video then Some Video
+  else if bytes_eqb s t_text then Some Text else if bytes_eqb s t_application then Some App else None.
 
 Definition proto_name (p : proto) : bytes :=
-  match p with PUdp => s_udp | PAvp => s_avp | PSavp => s_savp | PSavpf => s_savpf | POther s => s end.
+  match p with PUdp => t_udp | PAvp => t_avp | PSavp => t_savp | PSavpf => t_savpf | POther s => s end.
 Definition proto_of (s : bytes) : proto :=
-  if bytes_eqb s s_udp then PUdp else if bytes_eqb s s_avp then PAvp
-  else if bytes_eqb s s_savp then PSavp else if bytes_eqb s s_savpf then PSavpf else POther s.
+  if bytes_eqb s t_udp then PUdp else if bytes_eqb s t_avp then PAvp
+  else if bytes_eqb s t_savp then PSavp else if bytes_eqb s t_savpf then PSavpf else POther s.
 
 (* the crypto suites: the known names, anything else is an extension *)
 Definition suites : list bytes := Eval vm_compute in
@@ -91,11 +91,11 @@ Definition skip_ws (s : bytes) : bytes := snd (take_while is_ws s).
 Definition token (s : bytes) : bytes * bytes := take_while not_ws s.
 
 (* keying material lifetime: '|' then optional "2^" then a number; 2^n must fit u32 (checked_pow) *)
-Definition s_pow : bytes := Eval vm_compute in B"2^".
+Definition t_pow : bytes := Eval vm_compute in B"2^".
 Definition print_lifetime (n : N) : bytes :=
-  if (0 <? n)%N && N.eqb (2 ^ N.log2 n) n then s_pow ++ print_dec (N.log2 n) else print_dec n.
+  if (0 <? n)%N && N.eqb (2 ^ N.log2 n) n then t_pow ++ print_dec (N.log2 n) else print_dec n.
 Definition parse_lifetime (s : bytes) : option (N * bytes) :=
-  match strip_prefix s_pow s with
+  match strip_prefix t_pow s with
   | Some r => match number u32max r with
               | Some (e, r') => if (e <? 32)%N then Some ((2 ^ e)%N, r') else None
               | None => None
@@ -169,14 +169,14 @@ Inductive line :=
 Definition colon : byte := ":"%byte.
 Definition eq_ : byte := "="%byte.
 
-Definition s_rtpmap : bytes := Eval vm_compute in B"rtpmap".
-Definition s_fmtp : bytes := Eval vm_compute in B"fmtp".
-Definition s_rtcp : bytes := Eval vm_compute in B"rtcp".
-Definition s_iceoptions : bytes := Eval vm_compute in B"ice-options".
-Definition s_iceufrag : bytes := Eval vm_compute in B"ice-ufrag".
-Definition s_icepwd : bytes := Eval vm_compute in B"ice-pwd".
-Definition s_candidate : bytes := Eval vm_compute in B"candidate".
-Definition s_crypto : bytes := Eval vm_compute in B"crypto".
+Definition t_rtpmap : bytes := Eval vm_compute in B"rtpmap".
+Definition t_fmtp : bytes := Eval vm_compute in B"fmtp".
+Definition t_rtcp : bytes := Eval vm_compute in B"rtcp".
+Definition t_iceoptions : bytes := Eval vm_compute in B"ice-options".
+Definition t_iceufrag : bytes := Eval vm_compute in B"ice-ufrag".
+Definition t_icepwd : bytes := Eval vm_compute in B"ice-pwd".
+Definition t_candidate : bytes := Eval vm_compute in B"candidate".
+Definition t_crypto : bytes := Eval vm_compute in B"crypto".
 
 (* line.split_once(':') *)
 Fixpoint split_once (s : bytes) : option (bytes * bytes) :=
@@ -194,21 +194,21 @@ Section Dispatch.
   Definition classify_attr (l : bytes) : option line :=
     match split_once l with
     | Some (name, value) =>
-      if bytes_eqb name s_rtpmap then (if valid s_rtpmap value then Some (LRtpmap value) else None)
-      else if bytes_eqb name s_fmtp then (if valid s_fmtp value then Some (LFmtp value) else None)
-      else if bytes_eqb name s_rtcp then (if valid s_rtcp value then Some (LRtcp value) else None)
-      else if bytes_eqb name s_icelite then Some LIceLite
-      else if bytes_eqb name s_iceoptions then (if valid s_iceoptions value then Some (LIceOptions value) else None)
-      else if bytes_eqb name s_iceufrag then (if valid s_iceufrag value then Some (LUfrag value) else None)
-      else if bytes_eqb name s_icepwd then (if valid s_icepwd value then Some (LPwd value) else None)
-      else if bytes_eqb name s_candidate then (if valid s_candidate value then Some (LCandidate value) else None)
-      else if bytes_eqb name s_crypto then (if valid s_crypto value then Some (LCrypto value) else None)
+      if bytes_eqb name t_rtpmap then (if valid t_rtpmap value then Some (LRtpmap value) else None)
+      else if bytes_eqb name t_fmtp then (if valid t_fmtp value then Some (LFmtp value) else None)
+      else if bytes_eqb name t_rtcp then (if valid t_rtcp value then Some (LRtcp value) else None)
+      else if bytes_eqb name t_icelite then Some LIceLite
+      else if bytes_eqb name t_iceoptions then (if valid t_iceoptions value then Some (LIceOptions value) else None)
+      else if bytes_eqb name t_iceufrag then (if valid t_iceufrag value then Some (LUfrag value) else None)
+      else if bytes_eqb name t_icepwd then (if valid t_icepwd value then Some (LPwd value) else None)
+      else if bytes_eqb name t_candidate then (if valid t_candidate value then Some (LCandidate value) else None)
+      else if bytes_eqb name t_crypto then (if valid t_crypto value then Some (LCrypto value) else None)
       else Some (LAttr (mkattr name (Some value)))
     | None =>
       match dir_of l with
       | Some d => Some (LDir d)
-      | None => if bytes_eqb l s_icelite then Some LIceLite
-                else if bytes_eqb l s_eoc then Some LEoc
+      | None => if bytes_eqb l t_icelite then Some LIceLite
+                else if bytes_eqb l t_eoc then Some LEoc
                 else Some (LAttr (mkattr l None))
       end
     end.
@@ -329,7 +329,6 @@ Definition print_sd (s : sdesc) : list line :=
   flat_map print_md (s_media s).
 
 (* ---------- rendering a line as text ---------- *)
-Definition pre (k : string) (p : bytes) : bytes := bytes_of_string k ++ p.
 
 Definition render (l : line) : bytes :=
   match l with
@@ -341,16 +340,16 @@ Definition render (l : line) : bytes :=
   | LBw p => "b"%byte :: eq_ :: p
   | LMedia m => "m"%byte :: eq_ :: print_media m
   | LDir d => "a"%byte :: eq_ :: dir_name d
-  | LEoc => "a"%byte :: eq_ :: s_eoc
-  | LIceLite => "a"%byte :: eq_ :: s_icelite
-  | LRtpmap p => "a"%byte :: eq_ :: s_rtpmap ++ colon :: p
-  | LFmtp p => "a"%byte :: eq_ :: s_fmtp ++ colon :: p
-  | LRtcp p => "a"%byte :: eq_ :: s_rtcp ++ colon :: p
-  | LIceOptions p => "a"%byte :: eq_ :: s_iceoptions ++ colon :: p
-  | LUfrag p => "a"%byte :: eq_ :: s_iceufrag ++ colon :: p
-  | LPwd p => "a"%byte :: eq_ :: s_icepwd ++ colon :: p
-  | LCandidate p => "a"%byte :: eq_ :: s_candidate ++ colon :: p
-  | LCrypto p => "a"%byte :: eq_ :: s_crypto ++ colon :: p
+  | LEoc => "a"%byte :: eq_ :: t_eoc
+  | LIceLite => "a"%byte :: eq_ :: t_icelite
+  | LRtpmap p => "a"%byte :: eq_ :: t_rtpmap ++ colon :: p
+  | LFmtp p => "a"%byte :: eq_ :: t_fmtp ++ colon :: p
+  | LRtcp p => "a"%byte :: eq_ :: t_rtcp ++ colon :: p
+  | LIceOptions p => "a"%byte :: eq_ :: t_iceoptions ++ colon :: p
+  | LUfrag p => "a"%byte :: eq_ :: t_iceufrag ++ colon :: p
+  | LPwd p => "a"%byte :: eq_ :: t_icepwd ++ colon :: p
+  | LCandidate p => "a"%byte :: eq_ :: t_candidate ++ colon :: p
+  | LCrypto p => "a"%byte :: eq_ :: t_crypto ++ colon :: p
   | LAttr a => "a"%byte :: eq_ :: a_name a ++ (match a_value a with Some v => colon :: v | None => [] end)
   | LIgnored raw => raw
   end.
